@@ -7,6 +7,7 @@ import TgModel.Grammar
 import TgModel.LineIndex
 import TgModel.Include
 import TgModel.SymbolMap
+import TgModel.Host
 
 open Tg
 
@@ -133,6 +134,30 @@ def cmdSymmap (rest : String) : String :=
     " ".intercalate answers
   | _ => "bad-args"
 
+/-- `host <texts> <ops>`: texts `;`-separated, text id = position, each a `,`-separated list of include
+names (a name is the path id it denotes; flat directory: a name resolves iff the file system has that
+path); ops `;`-separated `e:<path>:<text>` | `r:<path>`. Prints the observable inputs of the final db. -/
+def cmdHost (rest : String) : String :=
+  match rest.splitOn " " with
+  | [textsS, opsS] =>
+    let texts : Array (List Nat) := (textsS.splitOn ";").toArray.map fun row =>
+      if row.isEmpty || row == "." then [] else (row.splitOn ",").map (·.toNat!)
+    let env : Host.Env := { incs := fun t => texts.getD t [], resolve := fun fs _ n => if (fs n).isSome then some n else none }
+    let ops : List Host.Op := (opsS.splitOn ";").filterMap fun o =>
+      match o.splitOn ":" with
+      | ["e", p, t] => some (.edit p.toNat! t.toNat!)
+      | ["r", p] => some (.selectRoot p.toNat!)
+      | _ => none
+    let st := Host.run env 10000 ops
+    match st.db with
+    | none => "PANIC"
+    | some db =>
+      let o := Host.observe db
+      let files := (o.files.toArray.qsort (· < ·)).toList
+      let rows := files.map fun f => s!"{f}={(db.content f).getD 999999}:" ++ ",".intercalate ((db.incMap f).map fun (i, t) => s!"{i}>{t}")
+      s!"root={o.root.getD 999999} files={files} {" ".intercalate rows}"
+  | _ => "bad-args"
+
 def dispatch (cmd rest : String) : String :=
   match cmd with
   | "lex" => match payload rest with | some s => cmdLex s | none => "bad-utf8"
@@ -143,6 +168,7 @@ def dispatch (cmd rest : String) : String :=
   | "li" => LineIndex.cmd rest
   | "graph" => cmdGraph rest
   | "symmap" => cmdSymmap rest
+  | "host" => cmdHost rest
   | _ => s!"bad-cmd {cmd}"
 
 partial def loop (h : IO.FS.Stream) (out : IO.FS.Stream) : IO Unit := do
